@@ -1328,6 +1328,11 @@ fn gen_c20(ch: &mut Choices) -> Plan {
                 plan.cfg.hs_keepalive = Some(1 + ch.choose(3) as u16);
             }
             plan.tags.push("mode:keepalive".into());
+            if ch.chance(1, 3) {
+                // both timers configured: the frame read-rate timer borrows the connection's single timer slot
+                // while a fragmented packet is arriving, the keep-alive timer must be back afterwards
+                plan.cfg.frame_read_rate = Some((1 + ch.choose(2) as u16, *ch.pick(&[0u16, 4]), *ch.pick(&[4u32, 64])));
+            }
             let n = ch.choose(6);
             let mut t: u64 = 0;
             for i in 0..n {
